@@ -237,11 +237,25 @@ static void finish_thread(int code, const char *how)
 	pthread_exit(NULL);
 }
 
+/* A fresh thread stack is all zero pages; a real process's main() runs on a stack the dynamic loader and libc start-up
+   code have already used.  Leave non-zero bytes where main()'s frame is going to be, so that a program which relies on
+   an uninitialised automatic variable being zero does not get away with it here. */
+static __attribute__((noinline)) void paint_stack(unsigned long long seed)
+{
+	volatile unsigned char junk[192 * 1024];
+	size_t i;
+	for (i = 0; i < sizeof(junk); i++) {
+		seed = seed * 6364136223846793005ULL + 1442695040888963407ULL;
+		junk[i] = (unsigned char) ((seed >> 56) | 1);
+	}
+}
+
 static void *inst_thread(void *arg)
 {
 	int k = (int)(intptr_t) arg;
 	int rc;
 	cur = k;
+	paint_stack(insts[k].rng0);
 	pthread_mutex_lock(&mtx);
 	while (turn != k)
 		pthread_cond_wait(&cnd, &mtx);
@@ -921,6 +935,15 @@ int main(int argc, char **argv)
 			vt_us = atoll(tok[1]);
 		} else if (!strcmp(tok[0], "sysrc") && nt == 2) {
 			system_rc = atoi(tok[1]);
+		} else if (!strcmp(tok[0], "env") && nt == 3) {
+			/* environment of the instance spawned next (the programs read it during start-up only) */
+			unsigned char *b;
+			int l = unhex(tok[2], &b);
+			b[l] = 0;
+			setenv(tok[1], (char *) b, 1);
+			free(b);
+		} else if (!strcmp(tok[0], "unenv") && nt == 2) {
+			unsetenv(tok[1]);
 		} else if (!strcmp(tok[0], "hostprofile") && nt == 2) {
 			host_profile = atoi(tok[1]);
 		} else if (!strcmp(tok[0], "residue") && nt >= 2) {
